@@ -13,7 +13,9 @@ class Mismatch(Exception):
 
 def gather(parts):
     """what compute() would hand back: the concatenation of the partitions (or the single scalar)"""
-    parts = list(parts)
+    from .frame import _from_empty_pandas
+
+    parts = [_from_empty_pandas(p) for p in parts]
     if len(parts) == 1 and not isinstance(parts[0], (SymFrame, SymSeries, SymIndex)):
         return parts[0]
     if all(isinstance(p, (SymFrame, SymSeries, SymIndex)) for p in parts):
